@@ -1,6 +1,6 @@
 from checks import concfam
 GUARDS = {"NoOverlap", "ContentsKept.gen", "ContentsKept.bytes", "ObsOfLiveBlock", "FreeOfLiveBlock", "CheckAllComplete", "QuiesceNoLive",
-          "DirtyAllReleased", "AllReleased", "DestructiveAvoidsLive", "LiveAccessible", "Invariant.Inv", "ZeroOK"}
+          "DirtyAllReleased", "AllReleased", "DestructiveAvoidsLive", "LiveAccessible", "Invariant.Inv", "ZeroOK", "OwnershipQuery"}
 def run(tier, seed):
     rof = {"MIMALLOC_ABANDONED_RECLAIM_ON_FREE": "1"}
     noarena = {"MIMALLOC_DISALLOW_ARENA_ALLOC": "1"}
@@ -10,6 +10,8 @@ def run(tier, seed):
     for env, tag in [(None, "default"), (rof, "rof"), (noarena, "os"), (both, "rof+os"), (purge, "purge")]:
         jobs.append({"prog": "exit", "strategy": "random", "runs": (120, 1500), "args": ["--spurious", "1", "--rate", "3"], "env": env})
         jobs.append({"prog": "exit", "strategy": "pct", "runs": (60, 800), "args": [], "env": env})
+    jobs.append({"prog": "exit-heap", "strategy": "random", "runs": (30, 400), "args": ["--rate", "3"], "env": None})
+    jobs.append({"prog": "exit-heap", "strategy": "random", "runs": (30, 400), "args": ["--rate", "3"], "env": rof})
     jobs.append({"prog": "exit", "strategy": "random", "runs": (60, 800), "args": ["--size", "60000", "65536"], "env": rof})
     jobs.append({"prog": "exit", "strategy": "random", "runs": (60, 800), "args": ["--size", "40", "200"], "env": rof})
     jobs.append({"prog": "exit", "strategy": "random", "runs": (40, 600), "args": ["--size", "600000", "1048576"], "env": None})
